@@ -427,7 +427,6 @@ func (v *Verifier) mapRangeCovered(f *ssa.Function) bool {
 	return false
 }
 
-
 // ---------------------------------------------------------------------------------------------------------------------
 // C18: genesis footprint. For every module: each KV key prefix (constant passed to types.KeyPrefix) that some function of the
 // module writes under must be read by the closure of ExportGenesis and written by the closure of InitGenesis; otherwise state
@@ -545,7 +544,6 @@ func (v *Verifier) genesisObligations() []detResult {
 	}
 	return out
 }
-
 
 // storeOwned: v is (a view of) a byte slice handed out by KVStore.Get or an iterator's Key/Value; returns the producing call.
 func storeOwned(v ssa.Value, seen map[ssa.Value]bool) string {
